@@ -52,6 +52,10 @@ CLAIMS = {
  'C14': ("Unbounded theorems (iff): SuiteConfig.Validate succeeds exactly for usable suites and OCRAInput.Validate exactly for admissible inputs (the property's sentence as a Prop); "
          "generation/validation get past admission exactly under both.",
          "Out-of-enum challenge formats / password hashes are outside the property; the model still mirrors the code there and the harness compares them.", "6 C14"),
+ 'C18': ("Unbounded theorems over the REST model (router + ten handlers as request -> now -> response * work): a well-formed request reaches the handler with exactly its decoded fields; the codes the HOTP/TOTP endpoints return are the RFC 4226 values for the request's secret, counter / floor(timestamp/period) (period 0 or absent = 30), digits and hash spellings (unknown = 6 / SHA-1); a code generated by one endpoint validates at the matching endpoint (HOTP, OCRA); the suite list, suite description, secret and URL endpoints return the registry, the secret generator's and the URL builder's results.",
+         "The model's JSON layer is encoding/json's acceptance rule per DTO field type over a body *shape* (malformed / not an object / object with a value kind per field); tokenizing is Go's json.Valid in the harness. The tie is the real server binary built from the working tree, on loopback, on reused and fresh connections, sequences that differ only in an omitted field, and concurrent bursts compared with their sequential answers. Answers that depend on the server clock are checked against the timestamp the response reports.", "6 C18"),
+ 'C19': ("Unbounded theorem: for every request (any method, path, malformed / non-object / object body with any value kind in any field) the handler under the recovery middleware yields a status in {200,302,400,404,405,500}, status 200 exactly for a success body, after at most 21 HMAC derivations whatever skew/period/counter/timestamp the request carries; malformed bodies give 400 on every POST endpoint.",
+         "Partial: 'promptly', 'complete HTTP response' and 'keeps serving' are socket/runtime behaviour the model cannot exhibit (fasthttp timeouts and limits, process liveness); the harness observes them on the real binary: hostile bodies up to 200 kB, every field with every JSON kind, 64-bit extremes, wrong methods and unknown paths, each batch followed by well-formed probes whose answers are checked, a 2 s latency bound per response and a liveness check.", "6 C19"),
  'C20': ("Unbounded theorems: DeriveRFC4226Wasm = deriveRFC4226 for every key, counter, code length and hash value (its own ten-digit modulus and its FormatUint+padding formatter are proved equal to the native table entry and formatter); ValidateOTPWasm and both window loops of the binding accept exactly what the native loops accept; hence each of the five callbacks returns the native code / verdict / URL text for well-typed arguments (integral or fractional numbers with integer part in the stated ranges), "
          "every call that is not well typed is answered with a string starting with 'error: ', and (finite, on the export table regenerated from otp-js/src/index.js and wasm/main.go) every exported name is bound to the registered global of the same name.",
          "JavaScript values are modelled by type and, for numbers, by what syscall/js Value.Int() returns under Node (truncation; NaN/infinities/out-of-range give MinInt64 — observed, not derived); the freshly built module is run under Node through globalThis and through a copy of the package's own index.js and compared with the model and with the native model on every run. Strings cross the boundary as UTF-8; only valid UTF-8 is exercised. 'leaves the module usable' is checked by the harness (one module instance answers the whole stream).", "6 C20"),
